@@ -392,7 +392,8 @@ class StoreJudge:
             if head != "ok":
                 self.v("C01", f"put with granted reservation {tid} by its owner failed: {head}")
                 self.v("C07", f"valid put rejected: {head}")
-                self.v("C20", f"a valid put (granted reservation, by its owner, first use) raised {head}", "kernel-exception")
+                if not self.aliasing:      # (one object stored twice at the same time is outside the domain, as for C02 / C06 / C07)
+                    self.v("C20", f"a valid put (granted reservation, by its owner, first use) raised {head}", "kernel-exception")
                 if self.family in ("slot", "cbelt"):
                     self._belt_broken = True          # whether the item is on the belt is unknown from here on
                 t.state = "used"   # the reservation is gone in any case
@@ -433,7 +434,8 @@ class StoreJudge:
             if not head.startswith("item "):
                 self.v("C02", f"get with granted reservation {tid} by its owner failed: {head}")
                 self.v("C07", f"valid get rejected: {head}")
-                self.v("C20", f"a valid get (granted reservation, by its owner, first use) raised {head}", "kernel-exception")
+                if not self.aliasing:
+                    self.v("C20", f"a valid get (granted reservation, by its owner, first use) raised {head}", "kernel-exception")
                 if self.family in ("slot", "cbelt"):
                     self._belt_broken = True
                 if self.cancelled_granted_get:
